@@ -173,12 +173,12 @@ func (g *gen) signers(p [][2]int, wantValid bool) []int {
 }
 
 type chainInfo struct {
-	n    int
-	blk  []int   // by height 1..n
-	vs   []int   // by height 1..n+1
-	t    []int64 // by height
-	app  int
-	cid  int
+	n   int
+	blk []int   // by height 1..n
+	vs  []int   // by height 1..n+1
+	t   []int64 // by height
+	app int
+	cid int
 }
 
 func (g *gen) honestChain(n, cid, app int, churnP int) *chainInfo {
@@ -520,12 +520,14 @@ func genKnownShapes(r *rand.Rand, emit func(core.Case)) {
 			emit(core.Case{Kind: "shape-lying+silent-witness", Ops: ops})
 		}
 	}
-	{ // primary answers a height below the trusted range inconsistently (backwards verification)
+	{ // primary answers a height below the trusted range inconsistently (backwards verification):
+		// first a forged, unsigned, unlinked block, afterwards the genuine one
 		g := newGen(r)
 		c := g.honestChain(5, 1, 0, 0)
-		forked := g.fork(c, 1, 1)
 		h := 2 + r.Intn(2)
-		primary := g.prov(1, blocksOf(c.blk, 1, 5), fmt.Sprintf("ov=1:b%d", forked[h]))
+		base := g.specs[c.blk[h]]
+		forged := g.blk(spec{chain: 1, h: int64(h), t: base.t, vals: base.vals, next: base.next, last: c.blk[h-1], app: 7, basic: 1, commit: 1})
+		primary := g.prov(1, blocksOf(c.blk, 1, 5), fmt.Sprintf("ov=1:b%d", forged))
 		w := g.prov(1, blocksOf(c.blk, 1, 5), "")
 		ops := append([]string{}, g.ops...)
 		ops = append(ops, fmt.Sprintf("new chain=1 period=1000000000 h=5 hash=%d seq=0 num=1 den=3 drift=2 prune=0 primary=%d wit=%d order=%d,%d",
@@ -589,9 +591,9 @@ func genMalformed(r *rand.Rand) core.Case {
 }
 
 func generate(r *rand.Rand, tier string, emit func(core.Case)) {
-	nRandom, nDet, nLvl, nMal := 500, 60, 30, 30
+	nRandom, nDet, nLvl, nMal := 900, 110, 30, 30
 	if tier == "thorough" {
-		nRandom, nDet, nLvl, nMal = 6000, 700, 200, 200
+		nRandom, nDet, nLvl, nMal = 9000, 1000, 200, 200
 	}
 	genKnownShapes(r, emit)
 	for i := 0; i < nRandom; i++ {
